@@ -44,3 +44,66 @@ Theorem C06_then_healthy_installs :
     snd (fst (do_update sha sigok zdec base c d ch (Some rs) (Some bdl))) = UInstalled.
 Proof. exact healthy_update_installs. Qed.
 Print Assumptions C06_then_healthy_installs.
+
+(* ---------- what the library reads from a response body (Json.v: serde's derived Deserialize for
+   PatchCheckResponse / Patch over the body's JSON tree) ---------- *)
+From UV Require Import Json JsonProofs.
+
+(* the request as the updater sees it: no answer, an answer whose body is not JSON ([None] tree), or a tree *)
+Definition response_read (body : option (option json)) : option resp :=
+  match body with
+  | Some (Some j) => resp_of_json j
+  | _ => None
+  end.
+
+(* every body the library cannot read as a response — not an object/array, a required field missing, a
+   wrong type anywhere in a known field, a number that is not a usize, a known field given twice — is a
+   failed patch check: error status, no download, nothing changed but the flushed event queue *)
+Theorem C06_unreadable_body_is_failed_check :
+  forall sha sigok zdec base (c : cfg) (d : disk) ch dl (body : option (option json)),
+    response_read body = None ->
+    do_update sha sigok zdec base c d ch (response_read body) dl =
+    (cs_clear_events c (norm c d), UError,
+     map NEvent (firstn 3 (evq (load_s c (norm c d)))) ++ [NCheck (mk_request c ch)]).
+Proof. intros. rewrite H. apply check_failure_frame. Qed.
+Print Assumptions C06_unreadable_body_is_failed_check.
+
+Theorem C06_body_missing_required_field :
+  forall l, (forall v, ~ In ("patch_available"%string, v) l) -> resp_of_json (JObj l) = None.
+Proof. exact missing_patch_available_rejected. Qed.
+Print Assumptions C06_body_missing_required_field.
+
+Theorem C06_body_duplicate_field :
+  forall l1 k v1 l2 v2 l3, known k = true ->
+    resp_of_json (JObj (l1 ++ (k, v1) :: l2 ++ (k, v2) :: l3)) = None.
+Proof. exact duplicate_field_rejected. Qed.
+Print Assumptions C06_body_duplicate_field.
+
+Theorem C06_body_unknown_field_ignored :
+  forall l1 k v l2, known k = false ->
+    resp_of_json (JObj (l1 ++ (k, v) :: l2)) = resp_of_json (JObj (l1 ++ l2)).
+Proof. exact unknown_field_ignored. Qed.
+Print Assumptions C06_body_unknown_field_ignored.
+
+Theorem C06_body_patch_numbers_are_usize :
+  forall j n, as_usize j = Some n <-> j = JNum (JInt false n) /\ n < two64.
+Proof. exact usize_exactly. Qed.
+Print Assumptions C06_body_patch_numbers_are_usize.
+
+(* what a well-behaved server serialises is read back exactly *)
+Theorem C06_body_roundtrip :
+  forall r, resp_in_range r -> resp_of_json (json_of_resp r) = Some r.
+Proof. exact resp_roundtrip. Qed.
+Print Assumptions C06_body_roundtrip.
+
+(* non-vacuity: a contradictory body (patch_available without patch) is READ, and rejected later by
+   update (C06_contradictory_response_frame); a float patch number is not read at all *)
+Example C06_body_examples :
+  resp_of_json (JObj [("patch_available"%string, JBool true)]) =
+    Some {| r_avail := true; r_patch := None; r_rb := None |} /\
+  resp_of_json (JObj [("patch_available"%string, JBool true);
+                      ("patch"%string, JObj [("number"%string, JNum JFloat); ("hash"%string, JStr "");
+                                             ("download_url"%string, JStr "")])]) = None /\
+  resp_of_json (JArr [JBool false; JNull; JArr [JNum (JInt false 3)]]) =
+    Some {| r_avail := false; r_patch := None; r_rb := Some [3] |}.
+Proof. vm_compute. repeat split. Qed.
